@@ -68,7 +68,13 @@ class Verif:
         P = VPre(); P.prog_base, P.prog_len, P.M0 = self.prog_base, self.prog_len, self.M0
         P.pc = B64('pc')
         body = self.f.loop_body(self.head)
-        for l in self.f.assigned_in(body): fr.locals.pop(l, None)
+        P.carried = {}
+        for l in self.f.assigned_in(body):
+            had = fr.locals.pop(l, None)
+            # a local that is live at the loop head and assigned inside the loop is loop-carried state: arbitrary value of its type
+            ty = self.f.locals.get(l, '')
+            if had is not None and l != self.ip and (ty == 'bool' or ty in mirsym.INT_TYPES):
+                fr.locals[l] = self.eng.fresh_lazy(ty, f'carried{l}'); P.carried[l] = fr.locals[l]
         fr.locals[self.ip] = V(P.pc, 'usize')
         P.opc = BitVecVal(opc, 8) if opc is not None else BitVec('opc', 8)
         P.regbyte = BitVec('regbyte', 8); P.off = BitVec('off', 16); P.imm = BitVec('imm', 32)
